@@ -14,7 +14,11 @@ def main():
     a = ap.parse_args()
     mod = importlib.import_module(f"harness.checks.{a.pid.lower()}")
     if a.replay:
-        sys.exit(mod.replay(a.replay))
+        if hasattr(mod, "replay"):
+            sys.exit(mod.replay(a.replay))
+        print(open(a.replay).read()[:4000])
+        print("this check has no single-input replay; re-running its quick tier")
+        sys.exit(mod.main("quick", a.seed))
     if a.selftest:
         sys.exit(mod.selftest())
     sys.exit(mod.main(a.tier, a.seed))
